@@ -170,6 +170,12 @@ def load_known_findings() -> List[dict]:
     return data.get("findings", [])
 
 
+def unlisted_violations(ck: Checker) -> list:
+    """violations of this run that are not listed as known findings of the property"""
+    known = {k["key"] for k in load_known_findings() if k.get("status") == "known" and k.get("property") == ck.prop_id}
+    return [v for v in ck.violations if v.key not in known]
+
+
 def finish(ck: Checker, started: float, seed: int, error: Optional[str] = None) -> int:
     """Write evidence, print the verdict lines, return the exit status."""
     os.makedirs(REPLAY_DIR, exist_ok=True)
@@ -241,8 +247,14 @@ def finish(ck: Checker, started: float, seed: int, error: Optional[str] = None) 
         with open(os.path.join(EVIDENCE_DIR, f"{ck.prop_id}.json"), "w") as f:
             json.dump(evidence, f, indent=1, sort_keys=False, default=str)
 
+    printed = set()
     for v in known_matched:
-        print(f"KNOWN-FINDING: property={ck.prop_id} {known[v.key].get('what', v.summary)} [{v.key}]")
+        if v.key in printed:
+            continue                  # one line per listed finding, however many paths reach it
+        printed.add(v.key)
+        k = known[v.key]
+        line = k.get("line") or k.get("what") or v.summary
+        print(f"KNOWN-FINDING: property={ck.prop_id} {line} [{v.key} at {v.where}]")
     for v in new_violations:
         print(f"{v.where} {v.construct}: rule {v.rule} {ck.clauses.get(v.rule, '')}: {v.summary}"
               + (f" | found: {v.found}" if v.found else "") + (f" | required: {v.required}" if v.required else "")
